@@ -1,7 +1,6 @@
-SPECIFICATION Spec
+SPECIFICATION SmallSpec
 CONSTANTS
-  Scenarios <- MCScenarios
-  Dev <- MCDev
+  Dev <- NoDev
 INVARIANT C14_InitOnce
 INVARIANT C14_InitWhen
 INVARIANT C14_ProcAfterInit
